@@ -40,6 +40,12 @@ def tasks(tier, seed, pid='C05'):
             for first in range(len(chain_shapes(L))):
                 ts.append(dict(name=f'chains_L{L}_k{k}_ids{len(ids)}_first{first}', kind='chains', L=L, k=k, ids=ids,
                                ordered=ordered, first=first, charges=True, cut=None))
+    # identity id different from 0 (the id 0 is then an ordinary operator): padding must use the id handed in
+    for (L, K, ids, oid) in ([(2, 2, (0, 1, 2), 2), (3, 2, (0, 1), 1)] if tier == 'quick' else [(2, 3, (0, 1, 2), 2), (3, 2, (0, 1, 2), 1), (4, 2, (0, 1), 1)]):
+        for k in range(1, K + 1):
+            for first in range(len(chain_shapes(L))):
+                ts.append(dict(name=f'chains_L{L}_k{k}_ids{len(ids)}_first{first}_ident{oid}', kind='chains', L=L, k=k, ids=ids,
+                               ordered=True, first=first, charges=(L == 2), oid_identity=oid, cut=None))
     # zero charges: MPO conversion under a symbolic operator map for chains of every length
     zplan = [(2, 2, (0, 1, 2)), (3, 2, (0, 1))] if tier == 'quick' else [(2, 3, (0, 1, 2)), (3, 2, (0, 1, 2)), (3, 3, (0, 1)), (4, 2, (0, 1))]
     for (L, K, ids) in zplan:
@@ -61,7 +67,7 @@ def tasks(tier, seed, pid='C05'):
 
 
 def required_marks(tier):
-    return ['coeff_zero_chain_dropped', 'trailing_coeff_absorbed', 'duplicate_chains', 'mpo_matrix_checked', 'nid_map_checked', 'parallel_edges_same_operator']
+    return ['identity_id_nonzero', 'coeff_zero_chain_dropped', 'trailing_coeff_absorbed', 'duplicate_chains', 'mpo_matrix_checked', 'nid_map_checked', 'parallel_edges_same_operator']
 
 
 def build_skeleton(eng, task):
@@ -132,17 +138,21 @@ def path(eng, acc, task, focus='C05'):
         else:
             qn = [0] * (len(oids) + 1)
         chains.append(OpChain(list(oids), qn, eng.sym(f'c{c}'), s))
-    inputs = dict(L=L, chains=[dict(oids=list(ch.oids), qnums=list(ch.qnums), coeff=ch.coeff, istart=ch.istart) for ch in chains])
+    oid_ident = task.get('oid_identity', 0)
+    inputs = dict(L=L, oid_identity=oid_ident,
+                  chains=[dict(oids=list(ch.oids), qnums=list(ch.qnums), coeff=ch.coeff, istart=ch.istart) for ch in chains])
     # the zero / non-zero pattern of the coefficients is decided here, independently of whether (and how) the code under
     # test looks at it (the unchanged code asks exactly these questions, so no extra paths arise)
     for ch in chains:
         bool(S(ch.coeff) == 0)
-    ref = W.chains_words(chains, L, 0)
+    ref = W.chains_words(chains, L, oid_ident)
+    if oid_ident != 0:
+        eng.mark('identity_id_nonzero')
     if len({(s, o) for s, o in skel}) < len(skel):
         eng.mark('duplicate_chains')
     fails = []
     try:
-        g = OpGraph.from_opchains(chains, L, 0)
+        g = OpGraph.from_opchains(chains, L, oid_ident)
     except Exception as e:
         reraise_internal(e)
         # allowed only if every coefficient is zero on this path (the identically-zero operator is excluded)
